@@ -55,6 +55,7 @@ def generate_source_code(docstring, parsed):
         raise Exception('Expected one or more grammar rules.')
 
     visited_names = set()
+    anonymous_count = 0
     for rule in rules:
         if rule.name is not None and rule.name.startswith('_'):
             raise Exception(
@@ -63,7 +64,12 @@ def generate_source_code(docstring, parsed):
             )
 
         if not rule.name:
-            rule.name = f'_anonymous_{id(rule)}'
+            # The name has to be unique among all the grammars of an "extends"
+            # chain (they share one context), and should not change from one
+            # run to the next.
+            anonymous_count += 1
+            scope = '' if parsed.name is None else parsed.name.replace('.', '_') + '_'
+            rule.name = f'_anonymous_{scope}{anonymous_count}'
 
         if rule.name in visited_names:
             raise Exception(
